@@ -162,6 +162,84 @@ def forked_workers(tier, seed, report, stats, samples, seen):
             real.close()
 
 
+def cross_process_wakeups(tier, seed, report, stats, samples, seen):
+    """for each class of identifiers: process A is held inside its section on an identifier (its moves are slowed,
+    in A only), process B asks for the same identifier and has to wait; when A leaves, B must be woken and finish.
+    Only completion within a generous deadline is required, so timing cannot raise a false alarm."""
+    scenarios = [
+        ("reference-pid", [], lambda st, px, cx, cy: st.tag_object("p", cx), lambda st, px, cx, cy: st.tag_object("p", cy)),
+        ("cid", [], lambda st, px, cx, cy: st.tag_object("p1", cx), lambda st, px, cx, cy: st.tag_object("p2", cx)),
+        ("object-pid", [("store", "p")], lambda st, px, cx, cy: st.delete_object("p"), lambda st, px, cx, cy: st.delete_object("p")),
+        ("document", [], lambda st, px, cx, cy: st.store_metadata("p", px), lambda st, px, cx, cy: st.store_metadata("p", px)),
+    ]
+    for name, prep, op_a, op_b in scenarios:
+        contents = oracle.Contents()
+        real = impl.Real(contents, mp=True)
+        try:
+            X = contents.add(b"content for the wake-up scenario " + name.encode())
+            px = real.input_path(X)
+            cx, cy = contents.digest(X, "sha256"), "0" * 64
+            for what, p in prep:
+                real.store.store_object(p, px)
+            children = []
+            for who, op, delay in (("A", op_a, 0.0), ("B", op_b, 0.2)):
+                time.sleep(delay)
+                pid = os.fork()
+                if pid == 0:
+                    code = 0
+                    try:
+                        signal.alarm(90)
+                        if who == "A":
+                            import shutil as _sh
+                            real_move = _sh.move
+
+                            def slow_move(*a, **k):
+                                time.sleep(0.5)
+                                return real_move(*a, **k)
+                            _sh.move = slow_move
+                        try:
+                            op(real.store, px, cx, cy)
+                        except Exception:  # noqa: any documented rejection is fine here, only completion is judged
+                            pass
+                    except BaseException:  # noqa
+                        code = 3
+                    os._exit(code)
+                children.append((who, pid))
+            deadline = time.time() + 40
+            statuses = {}
+            for who, pid in children:
+                while True:
+                    done, st = os.waitpid(pid, os.WNOHANG)
+                    if done:
+                        statuses[who] = st
+                        break
+                    if time.time() > deadline:
+                        os.kill(pid, signal.SIGKILL)
+                        os.waitpid(pid, 0)
+                        statuses[who] = -1
+                        break
+                    time.sleep(0.01)
+            stats["execs"] += 2
+            stats["distinct"].add(("wakeup", name))
+            bad = {w_: s_ for w_, s_ in statuses.items() if s_ != 0}
+            locks = real.locks()
+            problems = {}
+            if bad:
+                problems["a process waiting for an identifier held by another process never returned"] = ("both return", bad)
+            elif locks != "locks objPid=[] refPid=[] cid=[] doc=[]":
+                problems["identifier left locked after both processes returned"] = ("all free", locks)
+            if problems:
+                sig = "c16:cross-process-wakeup:%s:%s" % (name, ",".join(sorted(problems)))
+                if sig not in seen:
+                    seen.add(sig)
+                    report.findings.append(Finding("C16", sig, "two forked processes on one %s identifier: %s" % (name, "; ".join(
+                        "%s: %s" % (k_, str(v[1])[:160]) for k_, v in problems.items())),
+                        {"property": "C16", "kind": "cross-process-wakeup", "class": name, "statuses": {k_: int(v) for k_, v in statuses.items()},
+                         "problems": {k_: [str(v[0])[:400], str(v[1])[:400]] for k_, v in problems.items()}}))
+        finally:
+            real.close()
+
+
 def run(tier, seed, report):
     stats = {"execs": 0, "distinct": set()}
     samples = []
@@ -169,10 +247,12 @@ def run(tier, seed, report):
     sequential_mp(tier, seed, report, stats, samples, seen)
     cov = conc.run("C16", tier, seed, report, mp_mode=True)
     forked_workers(tier, seed, report, stats, samples, seen)
+    cross_process_wakeups(tier, seed, report, stats, samples, seen)
     cov["evaluations"] += stats["execs"]
     cov["distinct_nontrivial"] += len(stats["distinct"])
     cov["rule"] = "(a) C05 / C11 histories on a store constructed with USE_MULTIPROCESSING=True, against the model and the " \
                   "spec; (b) the C07 / C12 menus under the controlled scheduler through the _mp attributes: " + cov["rule"] + \
-                  "; (c) supporting evidence only: real forked worker processes contending on shared pids / cids"
+                  "; (c) supporting evidence only: real forked worker processes contending on shared pids / cids; (d) per class of " \
+                  "identifiers, a forked process that has to wait for an identifier held by another forked process is woken and returns"
     cov["samples"] = samples + cov["samples"]
     return cov
